@@ -258,12 +258,25 @@ class CircuitCompositeOperation(ICircuitCompositeOperation):
         if relation_transfer_lookup is None:
             relation_transfer_lookup = {}
 
-        # Iterate through nodes and rebuild circuit composite
+        # Iterate through nodes and rebuild circuit composite.
+        # The copy replicates the graph (each node is attached to the copy of the node it is attached to in self),
+        # re-deriving positions from relation links can differ for multi-relation links, evaluated at another moment.
+        node_transfer_lookup: Dict[OperationGraphNode, OperationGraphNode] = {}
         for node in self._circuit_graph.get_node_iterator():
             operation_copy = node.operation.copy(relation_transfer_lookup=relation_transfer_lookup)
             # Keep track of copied operations for relation transfer
             relation_transfer_lookup[node.operation] = operation_copy
-            result.add(operation_copy)
+            node_copy: OperationGraphNode = OperationGraphNode(operation=operation_copy)
+            node_transfer_lookup[node] = node_copy
+            parent_node = node.incoming_pointers[0]
+            result._circuit_graph.append_pointer_to(
+                endpoint=node_transfer_lookup.get(parent_node, result._circuit_graph.root_node),
+                pointer=node_copy,
+            )
+        # Multi-relation links can reference nodes that are listed after the node that holds the link
+        for node in self._circuit_graph.get_node_iterator():
+            if isinstance(node.operation.relation_link, MultiRelationLink):
+                relation_transfer_lookup[node.operation].relation_link = node.operation.relation_link.copy(relation_transfer_lookup=relation_transfer_lookup)
 
         return result
 
